@@ -184,6 +184,28 @@ func buildC18Entries() []c18Entry {
 		}
 		return v == date.New(2020, 2, 2), err // an error leaves the receiver alone (reported as "zero" to the generic judge)
 	})
+	add("date", "date.Date.Scan (containers that contain themselves)", false, false, func(a, _ string) (bool, error) {
+		// a source of the wrong type is refused by naming its type; rendering its content would never end on these
+		m := map[string]any{"name": a}
+		m["parent"] = m
+		l := []any{a, nil}
+		l[1] = l
+		type node struct {
+			Name string
+			Next any
+		}
+		n := &node{Name: a}
+		n.Next = n
+		var p any
+		p = &p
+		srcs := []any{m, l, n, *n, p, map[string]any{"deep": map[string]any{"again": m}}, []any{l, m}}
+		v := date.New(2020, 2, 2)
+		err := v.Scan(srcs[len(a)%len(srcs)])
+		if err == nil {
+			return true, nil
+		}
+		return v == date.New(2020, 2, 2), err
+	})
 	for _, r := range []roman.Rule{0, roman.RuleDisableEmptyAsZero, -1} {
 		r := r
 		add("roman", fmt.Sprintf("roman.DefaultParser[string](%d)", r), true, false, func(a, _ string) (bool, error) { v, err := roman.DefaultParser(a, r); return v == 0, err })
@@ -780,12 +802,13 @@ func c18Child(c *rt.Ctx, dir string) {
 		c.Serial("allocation", func(w *rt.W) {
 			sample := []metrics.Sample{{Name: "/gc/heap/allocs:bytes"}}
 			inputs := map[string][]string{
-				"date":  {"999999999-12-31", strings.Repeat("9", 100000), "999999999999999999999-01-01"},
-				"roman": {strings.Repeat("M", 200000), strings.Repeat("m", 1000) + "cmxcix"},
-				"sem":   {"99999999999999999999.99999999999999999999.99999999999999999999", "1.0.0-" + strings.Repeat("9", 100000), strings.Repeat("1.", 50000)},
-				"size": {"99999999999999999999999999999999999YiB", `{"value":1e999999999,"unit":"B"}`, `1e999999999`, `{"value":18446744073709551615,"unit":"EiB"}`, strings.Repeat("[", 100000), `{"x":` + strings.Repeat("[", 9000) + strings.Repeat("]", 9000) + `,"value":1,"unit":"B"}`,
+				"date":  {"999999999-12-31", strings.Repeat("9", 100000), "999999999999999999999-01-01", strings.Repeat("2021-01-01", 12000), strings.Repeat("-", 100000), strings.Repeat("0-", 60000)},
+				"roman": {strings.Repeat("M", 200000), strings.Repeat("m", 1000) + "cmxcix", strings.Repeat("MD", 60000), strings.Repeat("IV", 60000), strings.Repeat("M ", 60000)},
+				"sem":   {"99999999999999999999.99999999999999999999.99999999999999999999", "1.0.0-" + strings.Repeat("9", 100000), strings.Repeat("1.", 50000), "1.0.0-" + strings.Repeat("a.", 60000) + "a", "1.0.0+" + strings.Repeat("b.", 60000) + "b", "1.0.0-" + strings.Repeat("0.", 60000) + "1", "v1.0.0-" + strings.Repeat("a-", 60000) + "+" + strings.Repeat("1.", 30000) + "1"},
+				"size": {strings.Repeat("000 ", 32768) + "001 kB", strings.Repeat("0_", 65536) + "1", strings.Repeat("1 ", 50000) + "B", strings.Repeat("12\u00a0", 30000) + "MiB", `"` + strings.Repeat("000 ", 32768) + `1 kB"`,
+					`{"value":"` + strings.Repeat("00 ", 40000) + `1","unit":"kB"}`, `"` + strings.Repeat(`\u0030`, 20000) + `"`, `{` + strings.Repeat(`"k":1,`, 20000) + `"value":1,"unit":"B"}`, "99999999999999999999999999999999999YiB", `{"value":1e999999999,"unit":"B"}`, `1e999999999`, `{"value":18446744073709551615,"unit":"EiB"}`, strings.Repeat("[", 100000), `{"x":` + strings.Repeat("[", 9000) + strings.Repeat("]", 9000) + `,"value":1,"unit":"B"}`,
 					`{"x":` + strings.Repeat(`{"a":`, 5000) + "1" + strings.Repeat("}", 5000) + `,"value":1,"unit":"B"}`, strings.Repeat("9", 100000) + "kB", `"` + strings.Repeat("9", 100000) + `"`},
-				"uu": {strings.Repeat("f", 100000), "urn:uuid:" + strings.Repeat("0", 36)},
+				"uu": {strings.Repeat("f", 100000), "urn:uuid:" + strings.Repeat("0", 36), strings.Repeat("urn:uuid:", 12000) + "f81d4fae-7dec-11d0-a765-00a0c91e6bf6", strings.Repeat("ffff-", 24000), strings.Repeat("-", 100000)},
 			}
 			// pair entry points: very long inputs whose first difference comes after millions of equal
 			// identifiers / bytes (work and stack must stay proportional to nothing worse than the length)
